@@ -240,3 +240,22 @@ Qed.
 
 Lemma aligned_rep (n : nat) (a : tree) : aligned_tree a -> aligned_tree (rep n a).
 Proof. intros Ha. induction n; cbn; auto. Qed.
+
+(* Scratch::split_mut(n, len) on a window of exactly n * len bytes: fine when len is a multiple of the alignment ... *)
+Lemma split_mut_suffices (n len : Z) : 0 <= n -> 0 <= len -> len mod 64 = 0 ->
+  run_takes (split_mut n len) (0, n * len) <> None.
+Proof.
+  intros Hn Hl Hm. unfold split_mut.
+  assert (Ht : aligned_tree (Take len)) by (cbn; unfold ALIGN; lia).
+  pose proof (aligned_rep (Z.to_nat n) (Take len) Ht) as Hr.
+  destruct (demand_rep (Z.to_nat n) (Take len) ltac:(cbn; lia)) as [Hd Hp]. cbn [persist demand] in Hd, Hp.
+  apply aligned_suffices.
+  - cbn [aligned_tree]. split; [nia | exact Hr].
+  - cbn [demand persist]. rewrite Hd. destruct (Z.to_nat n) eqn:E; [nia|].
+    assert (Z.of_nat (S n0) = n) by (rewrite <- E; apply Z2Nat.id; lia). nia.
+Qed.
+
+(* ... but its own precondition `available() >= n * len` is not sufficient otherwise: every sub-region is re-aligned *)
+Lemma split_mut_unaligned_refuted :
+  exists n len, 0 <= n /\ 0 <= len /\ n * len <= avail (0, n * len) /\ run_takes (split_mut n len) (0, n * len) = None.
+Proof. exists 2, 320144. repeat split; try lia; vm_compute; try reflexivity; discriminate. Qed.
